@@ -273,8 +273,8 @@ impl<'a, 'tcx> Ser<'a, 'tcx> {
                 }
                 if let Const::Unevaluated(u, _) = c {
                     let _ = write!(o, ",\"item\":{}", js(&self.path(u.def)));
-                    if u.promoted.is_some() {
-                        o.push_str(",\"promoted\":true");
+                    if let Some(p) = u.promoted {
+                        let _ = write!(o, ",\"promoted\":{}", p.as_u32());
                     }
                 }
             }
@@ -802,7 +802,13 @@ impl<'a, 'tcx> Ser<'a, 'tcx> {
     }
 }
 
-fn capture<'tcx>(tcx: TyCtxt<'tcx>, def: LocalDefId, body: &Body<'tcx>, form: char) {
+fn capture<'tcx>(
+    tcx: TyCtxt<'tcx>,
+    def: LocalDefId,
+    body: &Body<'tcx>,
+    form: char,
+    promoted: Option<&IndexVec<Promoted, Body<'tcx>>>,
+) {
     if !wanted_crate(tcx) {
         return;
     }
@@ -820,7 +826,21 @@ fn capture<'tcx>(tcx: TyCtxt<'tcx>, def: LocalDefId, body: &Body<'tcx>, form: ch
             return;
         }
         let mut ser = Ser { tcx, body, def, form, glue_cache: HashMap::new() };
-        ser.body_json()
+        let mut s = ser.body_json();
+        if let Some(ps) = promoted {
+            // append the promoted constant bodies (needed to read constants such as `&Event::Evict`)
+            s.pop(); // trailing '}'
+            s.push_str(",\"promoted\":[");
+            for (i, pb) in ps.iter().enumerate() {
+                if i > 0 {
+                    s.push(',');
+                }
+                let mut pser = Ser { tcx, body: pb, def, form, glue_cache: HashMap::new() };
+                s.push_str(&pser.body_json());
+            }
+            s.push_str("]}");
+        }
+        s
     }));
     with_store(|st| if form == 'P' { st.p.push(s) } else { st.e.push(s) });
 }
@@ -832,7 +852,8 @@ fn my_promoted<'tcx>(
     let r = (ORIG_P.get().unwrap())(tcx, def);
     {
         let body = r.0.borrow();
-        capture(tcx, def, &body, 'P');
+        let proms = r.1.borrow();
+        capture(tcx, def, &body, 'P', Some(&proms));
     }
     r
 }
@@ -841,7 +862,7 @@ fn my_elaborated<'tcx>(tcx: TyCtxt<'tcx>, def: LocalDefId) -> &'tcx Steal<Body<'
     let r = (ORIG_E.get().unwrap())(tcx, def);
     {
         let body = r.borrow();
-        capture(tcx, def, &body, 'E');
+        capture(tcx, def, &body, 'E', None);
     }
     r
 }
